@@ -276,6 +276,39 @@ NOT_BUILT = "check not built yet (build in progress, see DESIGN.md section 5); n
 NA = {}
 
 
+# harnesses added after the first version of the table above (appended to the level text of the check)
+ADDED = {
+    "C01": " Added: negative families 'tail inside an exon >= 400 bp from every annotated 3' end' and 'a different terminal exon of similar length' (known "
+           "finding, excluded by its class), minor overhangs next to a major contradiction; a tie locus (both equally close isoforms must be reported); "
+           "two reads through one assigner (history independence); parametric loci (second isoform placed by the solver) in the thorough tier.",
+    "C02": " Added: model-level bookkeeping - reads attached by the real save_assigned_read, a solver-chosen model discarded by delete_from_storage, then forward_counts.",
+    "C03": " Added: TranscriptToGeneJoiner.join_transcripts on 1-2 novel models (symbolic coordinates / strands) next to a reference gene.",
+    "C04": " Added: filter_transcripts bookkeeping (read lists, counters and model list agree after both de-duplication rounds and the real end "
+           "correction; symbolic coverage and unique-read counts); two-exon models in detect_similar_isoforms (known finding).",
+    "C05": " Added: one fake BAM record with symbolic flags / MAPQ through the real process_genic (record iff the documented filters pass); the "
+           "processed-read list handed to collect_reads keeps multiplicities in both memory modes and on --resume; a placed unmapped record in the stream; "
+           "a targeted quick shape reaching a tail sub-region that ends inside a bin.",
+    "C09": " Added: the counters as the real ReadAssignmentAggregator builds them (5x5 quantification strategies); AlignmentTagReadGrouper over BAM tag "
+           "types; the merger's file index used by --read_group file_name.",
+    "C10": " Added: experiment descriptions (YAML structure / file list) through the real InputDataStorage - what an experiment gets does not depend on "
+           "the others; combine_table through pandas with sentinel numerals parsed back into the symbolic counts.",
+    "C11": " Added: thread_ends/thread_starts (mirror image and independence of the vertex-set iteration order); PolyAFinder.detect_polya on a read and its "
+           "reverse complement (known finding: positions up to 2 bp off); region cutting under translation (scaled constants); loci where a read overruns "
+           "another isoform's end; a z3 FLOATING-POINT lane: order-sensitive cost sequences of the real penalty table (binary64, round to nearest) "
+           "found by z3 are replayed on the real select_best_among_inconsistent.",
+    "C12": " Added: the database -> GTF direction (a recorded GTF is reused only for the database it was converted from).",
+    "C13": " Added: optional polyA tail / polyT head; intron exclusion demanded from the code's absence-overlap threshold on; two reads through one "
+           "profile constructor (history independence, no aliasing); one BAM record through the real process_genic carries both feature profiles.",
+    "C14": " Added: start/end may move only when the flag of the event reported for the read is on; terminal exon aligned beyond its annotated place; "
+           "two reads through one corrector; the presets described in docs/cmd.md.",
+    "C15": " Added: ReadAssignmentLoader.get_next hands every assignment out with the gene-info region it was saved under.",
+    "C17": " Added: contig names with underscores/dots in reference ids; construct_fl_isoforms on several full-length paths (transcript ids pairwise "
+           "distinct); the real construct_models_in_parallel gives both GTF printers ONE exon-id table.",
+    "C18": " Added: two strand detectors at the same coordinates answer from their own sequences; the read-level flag through the real BasicTSVAssignmentPrinter.",
+    "C19": " Added: binary searches up to 5 (quick) / 9 (thorough) intervals; two reads through one profile constructor.",
+}
+
+
 def main():
     props = [json.loads(l) for l in open("/verif/properties.jsonl")]
     checks = []
@@ -291,7 +324,7 @@ def main():
                 "evidence_file": "/verif/evidence/%s.json" % pid,
                 "replay_cmd_template": "./check %s --replay {path}" % pid,
                 "engine": c.get("engine", "symx"),
-                "level_claimed": {"category": LEVEL, "text": c["text"], "design_ref": "DESIGN.md " + c["design"]},
+                "level_claimed": {"category": LEVEL, "text": c["text"] + ADDED.get(pid, ""), "design_ref": "DESIGN.md " + c["design"]},
                 "level_note": c["note"],
                 "technique": c.get("technique", TECH),
             })
